@@ -47,7 +47,7 @@ Definition elin (tab : list (Q * Q)) (qs : list Q) : list Z :=
 Definition espl (tab : list (Q * Q)) (qs : list Q) (ab : list (Q * Q)) : list Z :=
   let pts := build_Q tab in
   flat_map (fun p => eq (snd p)) pts ++
-  flat_map (fun x => e3 (spl_Q true pts x) ++ e3 (spl_Q false pts x)) qs ++
+  flat_map (fun x => e3 (spl_bs_Q true pts x) ++ e3 (spl_bs_Q false pts x)) qs ++
   flat_map (fun p => eo (integ_Q pts (fst p) (snd p)) ++ eo (mean_Q pts (fst p) (snd p))) ab.
 """
 
@@ -281,6 +281,8 @@ def main(c):
         v.append("Eval vm_compute in espl %s [%s] [%s]." % (tab, "; ".join(q(qs[i]) for i in qi),
                                                             "; ".join("(%s, %s)" % (q(pairs[i][0]), q(pairs[i][1])) for i in pi)))
     rc, mout, merr = c.coq_eval(["C11Model.v"], "\n".join(v) + "\n", timeout=1500)
+    if rc != 0 and not merr.strip():          # coqc killed from outside (shared machine): once more
+        rc, mout, merr = c.coq_eval(["C11Model.v"], "\n".join(v) + "\n", timeout=1500)
     c.log("model evaluated over Q")
     if rc != 0:
         c.report("model-eval", "model evaluation failed: " + merr[-500:], {"stderr": merr[-3000:]}, False)
@@ -515,7 +517,7 @@ def main(c):
                           "more than one node (linear), more than two (spline), distinct bounds (integral)" % (len(tabs), nq, nint, n_model, nmodel))
     c.coverage["traces_validated_against_impl"] = nmodel
 
-    r = c.coq(["C11Model.v", "C11Spec.v", "C11Proofs.v", "Properties_C11.v"], timeout=1500)
+    r = c.coq(["C11Model.v", "C11Spec.v", "C11Proofs.v", "C11Spline.v", "Properties_C11.v"], timeout=1500)
     if not r.ok:
         c.coq_failures(r)
 
